@@ -22,6 +22,31 @@ class Unsupported(Exception):
     pass
 
 
+INT_WIDTH = {"u8": 8, "u16": 16, "u32": 32, "u64": 64, "u128": 128, "usize": 64, "i8": 8, "i16": 16, "i32": 32, "i64": 64, "i128": 128, "isize": 64, "bool": 1}
+
+
+def tystr_of(body, tix):
+    try:
+        return F.tystr(body.types, tix)
+    except Exception:
+        return "?"
+
+
+def width_of(t, default):
+    """Widest integer type mentioned by a cast inside t (the type the surrounding arithmetic is carried out in)."""
+    w = [0]
+
+    def go(x):
+        if isinstance(x, tuple):
+            if x and x[0] == "cast" and len(x) > 2:
+                w[0] = max(w[0], INT_WIDTH.get(x[2], 0))
+            for y in x[1:]:
+                if isinstance(y, tuple):
+                    go(y)
+    go(t)
+    return w[0] or default
+
+
 def _fold_bin(op, a, b):
     if a[0] == "const" and b[0] == "const":
         x, y = a[1], b[1]
@@ -56,6 +81,8 @@ class Extractor:
         self.max_nodes = max_nodes
         self.nodes = 0
         self.inlined = set()
+        self.discr_of = {"core::option::Option::None": 0, "core::option::Option::Some": 1, "core::result::Result::Ok": 0, "core::result::Result::Err": 1,
+                         "core::ops::control_flow::ControlFlow::Continue": 0, "core::ops::control_flow::ControlFlow::Break": 1}
 
     # ------------------------------------------------------------------ operands / places
     def const(self, c):
@@ -92,7 +119,9 @@ class Extractor:
                 continue
             if isinstance(e, list) and e[0] == "f":
                 idx, name = e[1], e[3]
-                if t[0] == "pair":
+                if t[0] == "downcast" and t[1][0] == "agg" and idx < len(t[1][2]):
+                    t = t[1][2][idx]
+                elif t[0] == "pair":
                     t = t[1 + idx]
                 elif t[0] == "agg" and idx < len(t[2]):
                     t = t[2][idx]
@@ -104,6 +133,12 @@ class Extractor:
                     t = ("field", t, name)
             elif isinstance(e, list) and e[0] == "dc":
                 t = ("downcast", t, e[1])
+            elif isinstance(e, list) and e[0] in ("i", "ci"):
+                ix = ("const", e[1]) if e[0] == "ci" else env.get(e[1], ("local", e[1]))
+                if t[0] == "agg" and ix[0] == "const" and ix[1] < len(t[2]):
+                    t = t[2][ix[1]]
+                else:
+                    t = ("index", t, ix)
             else:
                 raise Unsupported("projection %r in %s" % (e, body.key))
         return t
@@ -156,7 +191,11 @@ class Extractor:
         if k == "cast":
             t = self.operand(body, env, rv[2])
             if rv[1] == "IntToInt":
-                return t if t[0] == "const" else ("cast", t)
+                ty = tystr_of(body, rv[3]) if len(rv) > 3 else "?"
+                if t[0] == "const":
+                    w = INT_WIDTH.get(ty)
+                    return ("const", t[1] % (1 << w)) if w and not ty.startswith("i") and t[1] >= 0 else t
+                return ("cast", t, ty)
             return ("castk", rv[1], t)
         if k == "bin":
             op = rv[1]
@@ -177,6 +216,8 @@ class Extractor:
             t = self.read(body, env, rv[1])
             if t[0] == "variant":
                 return ("const", t[3])
+            if t[0] == "agg" and t[1] in self.discr_of:
+                return ("const", self.discr_of[t[1]])
             return ("discr", t)
         if k == "agg":
             info = rv[1]
@@ -189,7 +230,11 @@ class Extractor:
                 return ("variant", info["d"], info["v"], d)
             if info["k"] == "tuple" and len(ops) == 2:
                 return ("pair", ops[0], ops[1])
-            return ("agg", info.get("d", info["k"]) + ("::" + info["v"] if info.get("v") else ""), ops)
+            name = info.get("d", info["k"]) + ("::" + info["v"] if info.get("v") else "")
+            if info["k"] == "adt" and info.get("enum"):
+                adt = self.prog.adts.get(info["d"])
+                self.discr_of[name] = adt["variants"][info["vi"]].get("discr", info["vi"]) if adt is not None else info["vi"]
+            return ("agg", name, ops)
         raise Unsupported("rvalue %s in %s" % (k, body.key))
 
     # ------------------------------------------------------------------ control flow
@@ -296,9 +341,17 @@ class Extractor:
                     return ("never",)
                 return self._block(body, t[4], env, path, depth)
             args = tuple(self.operand(body, env, a) for a in F.call_args(t))
+            decl = c.get("fn", "")
             if key in self.inline and key in self.prog.bodies:
                 self.inlined.add(key)
                 res = self.run(self.prog.bodies[key], args, depth + 1)
+            elif decl.endswith("ops::try_trait::Try::branch") and len(args) == 1 and args[0][0] == "agg" and args[0][1].rsplit("::", 1)[-1] in ("Ok", "Some", "Err", "None"):
+                v = args[0][1].rsplit("::", 1)[-1]
+                CF = "core::ops::control_flow::ControlFlow::"
+                if v in ("Ok", "Some"):
+                    res = ("agg", CF + "Continue", (args[0][2][0],) if args[0][2] else (("unit",),))
+                else:
+                    res = ("agg", CF + "Break", (args[0],))
             else:
                 res = ("call", key, args)
             d = F.call_dest(t)
@@ -378,7 +431,7 @@ def subst(t, f):
         x = subst(t[1], f)
         if k == "discr" and x[0] == "variant":
             return ("const", x[3])
-        return (k, x)
+        return (k, x) + tuple(t[2:])
     if k == "field":
         return ("field", subst(t[1], f), t[2])
     if k == "pair":
@@ -504,6 +557,8 @@ def term_str(t, depth=0):
         return "if %s {%s} else {%s}" % (term_str(t[1]), term_str(t[2]), term_str(t[3]))
     if k == "switch":
         return "match %s {%s, _ => %s}" % (term_str(t[1]), ", ".join("%s => %s" % (v, term_str(x)) for v, x in t[2]), term_str(t[3]))
+    if k == "index":
+        return "%s[%s]" % (term_str(t[1]), term_str(t[2]))
     if k == "divc":
         return "(%s)/%d" % (lin_str(t[1]), t[2])
     if k == "upd":
@@ -564,4 +619,148 @@ def weak_orderings(n):
             go(i + 1, cur + [r])
 
     go(0, [])
+    return out
+
+
+# ---------------------------------------------------------------------- concrete evaluation of integer formulas
+NUM_IMPL_WIDTH = {"{impl#6}": 8, "{impl#7}": 16, "{impl#8}": 32, "{impl#9}": 64, "{impl#10}": 128, "{impl#11}": 64,
+                  "{impl#0}": 8, "{impl#1}": 16, "{impl#2}": 32, "{impl#3}": 64, "{impl#4}": 128, "{impl#5}": 64}
+
+
+class Panics(Exception):
+    """The formula would panic (overflow check, division by zero) for the given values."""
+
+
+def _call_width(key, default):
+    parts = key.split("::")
+    if len(parts) >= 3 and parts[0] == "core" and parts[1] == "num" and parts[2] in NUM_IMPL_WIDTH:
+        return NUM_IMPL_WIDTH[parts[2]]
+    return default
+
+
+def concrete(t, env, width=32):
+    """Value of an integer/boolean formula under `env` (term -> int/bool). Unbound leaves raise KeyError. `width` is
+    the width arithmetic is carried out in unless a cast or a core::num method says otherwise. Overflow of checked
+    operators raises Panics. Option values are ('some', v) / ('none',)."""
+    if t in env:
+        return env[t]
+    k = t[0]
+    if k == "const":
+        return t[1]
+    if k == "bool":
+        return t[1]
+    if k == "cast":
+        v = concrete(t[1], env, width)
+        w = INT_WIDTH.get(t[2]) if len(t) > 2 else None
+        return int(v) % (1 << w) if w else int(v)
+    if k == "not":
+        v = concrete(t[1], env, width)
+        return (not v) if isinstance(v, bool) else (~v) % (1 << _tw(t[1], width))
+    if k == "ite":
+        return concrete(t[2], env, width) if concrete(t[1], env, width) else concrete(t[3], env, width)
+    if k == "switch":
+        c = concrete(t[1], env, width)
+        c = int(c) if isinstance(c, bool) else c
+        for v, x in t[2]:
+            if v == c:
+                return concrete(x, env, width)
+        return concrete(t[3], env, width)
+    if k == "pair":
+        return (concrete(t[1], env, width), concrete(t[2], env, width))
+    if k == "field" and t[2] in ("0", "1"):
+        v = concrete(t[1], env, width)
+        if isinstance(v, tuple) and v and v[0] == "some":
+            return v[1]
+        return v[int(t[2])] if isinstance(v, tuple) else v
+    if k == "agg" and t[1].endswith("Option::Some") and len(t[2]) == 1:
+        return ("some", concrete(t[2][0], env, width))
+    if k == "agg" and t[1].endswith("Option::None"):
+        return ("none",)
+    if k == "discr":
+        v = concrete(t[1], env, width)
+        if isinstance(v, tuple) and v and v[0] in ("some", "none"):
+            return 1 if v[0] == "some" else 0
+        return v
+    if k == "bin":
+        op = t[1]
+        a, b = concrete(t[2], env, width), concrete(t[3], env, width)
+        if op in ("Eq", "Ne", "Lt", "Le", "Gt", "Ge"):
+            return {"Eq": a == b, "Ne": a != b, "Lt": a < b, "Le": a <= b, "Gt": a > b, "Ge": a >= b}[op]
+        a, b = int(a), int(b)
+        w = max(_tw(t[2], width), _tw(t[3], width)) if op not in ("Shl", "Shr") else _tw(t[2], width)
+        if op in ("BitAnd", "BitOr", "BitXor"):
+            return {"BitAnd": a & b, "BitOr": a | b, "BitXor": a ^ b}[op]
+        if op in ("Shl", "Shr"):
+            if not 0 <= b < w:
+                raise Panics("shift by %d in u%d" % (b, w))
+            return ((a << b) if op == "Shl" else (a >> b)) % (1 << w)
+        if op in ("Div", "Rem"):
+            if b == 0:
+                raise Panics("division by zero")
+            return a // b if op == "Div" else a % b
+        r = {"Add": a + b, "Sub": a - b, "Mul": a * b}[op]
+        if not 0 <= r < (1 << w):
+            raise Panics("%s overflows u%d (%d %s %d)" % (op, w, a, op, b))
+        return r
+    if k == "call":
+        nm = t[1].rsplit("::", 1)[-1]
+        w = _call_width(t[1], width)
+        M = 1 << w
+        if nm in ("is_none", "is_some") and len(t[2]) == 1:
+            v = concrete(t[2][0], env, width)
+            if isinstance(v, tuple) and v and v[0] in ("some", "none"):
+                return (v[0] == "none") == (nm == "is_none")
+            raise KeyError(t)
+        a = [concrete(x, env, width) for x in t[2]]
+        if len(a) == 2 and all(isinstance(x, (int, bool)) for x in a):
+            x, y = int(a[0]), int(a[1])
+            if nm in ("wrapping_add", "wrapping_sub", "wrapping_mul"):
+                return {"wrapping_add": x + y, "wrapping_sub": x - y, "wrapping_mul": x * y}[nm] % M
+            if nm in ("checked_add", "checked_sub", "checked_mul"):
+                r = {"checked_add": x + y, "checked_sub": x - y, "checked_mul": x * y}[nm]
+                return ("some", r) if 0 <= r < M else ("none",)
+            if nm in ("saturating_add", "saturating_sub", "saturating_mul"):
+                r = {"saturating_add": x + y, "saturating_sub": x - y, "saturating_mul": x * y}[nm]
+                return min(max(r, 0), M - 1)
+            if nm in ("overflowing_add", "overflowing_sub"):
+                r = x + y if nm == "overflowing_add" else x - y
+                return (r % M, not 0 <= r < M)
+            if nm in ("min", "max"):
+                return min(x, y) if nm == "min" else max(x, y)
+        if len(a) == 1 and isinstance(a[0], (int, bool)) and nm in ("from", "into", "to_owned", "clone"):
+            return a[0]
+        if len(a) == 1 and nm in ("unwrap", "expect") and isinstance(a[0], tuple) and a[0] and a[0][0] == "some":
+            return a[0][1]
+    raise KeyError(t)
+
+
+def _tw(t, default):
+    if t[0] == "cast" and len(t) > 2:
+        return INT_WIDTH.get(t[2], default)
+    if t[0] == "bin":
+        return _tw(t[2], default) if t[1] in ("Shl", "Shr") else max(_tw(t[2], default), _tw(t[3], default))
+    if t[0] == "not":
+        return _tw(t[1], default)
+    if t[0] == "call":
+        return _call_width(t[1], default)
+    return default
+
+
+def ok_paths(t, is_ok):
+    """[(conditions, leaf)] for every leaf accepted by is_ok; conditions: [(term, ('is', bool) | ('eq', v) | ('ne', [vs]))]."""
+    out = []
+
+    def go(x, conds):
+        if x[0] == "state":
+            return go(x[1], conds)
+        if x[0] == "ite":
+            go(x[2], conds + [(x[1], ("is", True))])
+            go(x[3], conds + [(x[1], ("is", False))])
+        elif x[0] == "switch":
+            for v, y in x[2]:
+                go(y, conds + [(x[1], ("eq", v))])
+            go(x[3], conds + [(x[1], ("ne", [v for v, _ in x[2]]))])
+        elif is_ok(x):
+            out.append((conds, x))
+    go(t, [])
     return out
